@@ -238,6 +238,8 @@ PROPS["C03"] = {
         pbt("bounded_exhaustive", "pbt_C03", mode="enum", quick={}, thorough={"timeout": 7200}),
         pbt("random_buffers", "pbt_C03", quick={"cases": 15000, "size": 100, "shards": 8},
             thorough={"cases": 100000, "size": 200, "shards": 16}),
+        fuzz("libfuzzer_views", "fuzz_views", quick={"workers": 4, "runs": 300000, "max_len": 200, "max_len_big": 1200},
+             thorough={"workers": 16, "runs": 5000000, "max_len": 400, "max_len_big": 65535, "timeout": 14400}),
     ],
 }
 
